@@ -105,7 +105,7 @@ class C06(Machine):
                 exp = ["ok", {"poly": [refs[o].keystream(n), 8]}]
                 st["pure"] = False
                 st["before"] += n
-            if e["out"] != exp:
+            if _norm(e["out"]) != _norm(exp):
                 vs.append(vio("stream_output", "RC4", s["name"], s["id"],
                               {"got": _cut(e["out"]), "expected": _cut(exp), "bytes_before": st["before"], "op_index": st["ops"]}))
                 broken.add(o)
@@ -129,6 +129,18 @@ class C06(Machine):
                 probe("split_compared_with_fresh_oneshot")
         extra = {"faults": {}, "fps": sorted(set(f for e in hist for f in e.get("fp", [])))}
         return vs, probes, "|".join(trace), nontrivial, extra
+
+
+def _norm(out):
+    """Compare keystream values, not container types (Poly, list or bytes are all fine)."""
+    if out[0] != "ok":
+        return out
+    v = out[1]
+    if isinstance(v, dict) and "poly" in v:
+        return ["ok", list(v["poly"][0] or [])]
+    if isinstance(v, dict) and "b" in v:
+        return ["ok", list(bytes.fromhex(v["b"]))]
+    return out
 
 
 def _lc(n):
